@@ -557,7 +557,19 @@ class Ctx:
                     else:
                         rest.append((c, label, info))
                 if not hit:
-                    raise HarnessError("model of a failed batch violates no member")
+                    # the model does not evaluate any member to a literal `false` (partial evaluation of div/mod or
+                    # quotient terms): decide the members one by one; a single member the solver refutes is taken as
+                    # a candidate with the solver's model and the concrete replay decides
+                    if len(pend) == 1:
+                        c, label, info = pend[0]
+                        self.stats["candidates"] += 1
+                        self.candidates.append(dict(label=label, assign=self.current_assignment(m),
+                                                    info=_short(info), decisions=len(self.decisions)))
+                        return
+                    for item in pend:
+                        self._pending = [item]
+                        self.flush()
+                    return
                 pend = rest
                 continue
             # unknown: fall back to one query per obligation
@@ -728,7 +740,9 @@ def explore(fn, kwargs=None, prefixes=None, max_paths=100000, deadline=None, fro
             ctx.stats["errors"] += 1
             import traceback
             tb = traceback.format_exc(limit=12)
-            r = ctx._check()
+            # (feasibility of the erroring path is decided with the generous obligation timeout: the path may have been
+            # entered through a branch the solver could not decide within the short branch timeout)
+            r = ctx._check(timeout=ctx.prove_timeout)
             lab = "no unexpected exception out of the code under test (%s)" % type(e).__name__
             if r == "sat" and lab not in confirmed:
                 a = ctx.current_assignment(ctx.model())
